@@ -267,6 +267,35 @@ def _project_raises(ctx, f, call):
             or x == 'webob.exc.status_map[]'}
 
 
+def _only_via_allowed(ctx, c, x, seen=None):
+    """Exception x can leave function c only through calls that end in a
+    (function, exception) pair of R43_ALLOW: the allow-table is keyed by
+    where the exception originates, so wrapping the allowed call in a
+    helper changes nothing."""
+    if (c.qbase, x) in R43_ALLOW:
+        return True
+    seen = seen if seen is not None else set()
+    if c in seen or len(seen) > 12:
+        return False
+    seen.add(c)
+    found = False
+    for y, node, via in ctx.raises.sites.get(c, ()):
+        if y != x or via == 'reraise':
+            continue
+        if via == 'raise':
+            return False
+        site = ctx.cg.site_of.get(node)
+        gs = [g for g in (site.callees if site is not None else [])
+              if x in ctx.raises.summary.get(g, ())]
+        if not gs:
+            return False
+        for g in gs:
+            if not _only_via_allowed(ctx, g, x, seen):
+                return False
+            found = True
+    return found
+
+
 def _closure_covered(ctx, impl, g):
     """A local closure whose body is one try with the cleanup handler."""
     body = [s for s in g.node.body if not (
@@ -302,8 +331,11 @@ def r43(ctx, R, rule='R4.3'):
                 if _in_except_handler(s.node, impl.node):
                     continue
                 exc = _project_raises(ctx, impl, s.node)
-                exc = {x for x in exc if not any(
-                    (c.qbase, x) in R43_ALLOW for c in s.callees)}
+                exc = {x for x in exc if not (s.callees and all(
+                    _only_via_allowed(ctx, c, x) for c in s.callees
+                    if x in ctx.raises.summary.get(c, ())) and any(
+                        x in ctx.raises.summary.get(c, ())
+                        for c in s.callees))}
                 if not exc:
                     continue
                 covered = False
